@@ -482,7 +482,7 @@ class C23(Prop):
     families = {"quick": [("F2.3", 48), ("F3.1", 16), ("F2.2", 12), ("F1.1", 10), ("F1.1dup", 6), ("F2.1", 2)],
                 "thorough": [("F2.4", 192), ("F1.2q", 256), ("F3.2", 128), ("F1.3s", 128), ("F2.3", 48), ("F3.1", 16),
                              ("F2.2", 12), ("F1.1", 10), ("F1.1dup", 6), ("F2.1", 2)]}
-    budget = {"quick": 400, "thorough": 3600}
+    budget = {"quick": 600, "thorough": 3600}
 
     def shards(self, tier):
         return [[fam, mod, r] for fam, mod in self.families[tier] for r in range(mod)]
